@@ -445,6 +445,13 @@ class SArr(Model):
                 raise Unsupported("x[x[mask] < 0] = v")
             if mask.rank != self.rank:
                 raise Unsupported("mask rank")
+            if isinstance(val, SArr) and getattr(val, 'mask_obj', None) is mask and hasattr(val, 'aligned'):
+                # x[mask] = f(x[mask]): position o receives the value computed from the selected element at o
+                al = val.aligned
+                self.get = lambda o: z3.If(mask.get(o), al(o), old(o))
+                return
+            if isinstance(val, SArr) and val.rank > 0 and not shapes_equal(val.shape, self.shape):
+                raise Unsupported("masked assignment of an array that is not aligned with the mask")
             self.get = lambda o: z3.If(mask.get(o), elem_of(val, o), old(o))
             return
         if len(idx) > self.rank:
@@ -585,8 +592,12 @@ class MaskedView(SArr):
             it.ctx.assume(z3.ForAll([i], z3.Implies(z3.And(i >= 0, i < n, mask.get((i,))),
                                                     z3.And(inv(i) >= 0, inv(i) < m, src(inv(i)) == i)), patterns=[inv(i)]))
             self.shape = (m,)
-            self.get = lambda o: base.get((src(o[0]),))
+            g0 = base.get            # boolean indexing COPIES: later writes to the base do not show through
+            self.get = lambda o: g0((src(o[0]),))
             self.src = src
+            # value at a BASE index (for `x[mask] = f(x[mask])`: the right-hand side is aligned with the selected positions)
+            self.aligned = lambda o: g0(o)
+            self.mask_obj = mask
 
 
 class MaskedViewCmp(SArr):
@@ -839,7 +850,16 @@ def elementwise(it, op, a, b):
         dt = 'int'
     if isinstance(op, ast.Pow):
         dt = 'real' if a.dtype == 'real' or b.dtype == 'real' or True else 'int'
-    return SArr(shape, lambda o: scalar_op(it, op, ga(ma(o)), gb(mb(o))), dt)
+    res = SArr(shape, lambda o: scalar_op(it, op, ga(ma(o)), gb(mb(o))), dt)
+    # elementwise arithmetic of a masked selection with a scalar stays aligned with the selected base positions
+    am, bm = getattr(a, 'aligned', None), getattr(b, 'aligned', None)
+    if am is not None and b.rank == 0:
+        res.aligned = lambda o: scalar_op(it, op, am(o), gb(()))
+        res.mask_obj = a.mask_obj
+    elif bm is not None and a.rank == 0:
+        res.aligned = lambda o: scalar_op(it, op, ga(()), bm(o))
+        res.mask_obj = b.mask_obj
+    return res
 
 
 def map_array(it, a, f, dtype='real'):
